@@ -115,6 +115,8 @@ enum Case {
     ParamSets { codec: VCodec, sps: usize, pps: usize, vps: usize, dup: bool },
     Frag { name: String, cfg: FCfg, hist: Vec<FOp> },
     Init { cfg: FCfg },
+    /// fragmented builder with exactly one oversized parameter set (which: 0 = VPS, 1 = SPS, 2 = PPS)
+    InitOne { codec: VCodec, which: u8, len: usize },
 }
 
 fn key(codec: VCodec, tag: u32) -> Bytes {
@@ -316,6 +318,17 @@ fn cases() -> Vec<Case> {
             }
         }
     }
+    // one parameter set at a time around 2^16 (the others ordinary), through the builder
+    for &len in &[65535usize, 65536, 65537, 70000] {
+        for which in 0..3u8 {
+            for codec in [VCodec::H264, VCodec::H265] {
+                if codec == VCodec::H264 && which == 0 {
+                    continue;
+                }
+                v.push(Case::InitOne { codec, which, len });
+            }
+        }
+    }
     v
 }
 
@@ -447,6 +460,45 @@ fn judge(c: &Case, order: (u64, u64), t: &mut Tally) {
                 }
             }
         }
+        Case::InitOne { codec, which, len } => {
+            use muxide::api::{MuxerBuilder, VideoCodec};
+            let case = || json!({"engine": "E2-c16-init-one", "codec": codec, "which": which, "len": len});
+            let sized = |base: Vec<u8>, w: u8| -> Vec<u8> {
+                let mut b = base;
+                if w == *which {
+                    while b.len() < *len {
+                        let i = b.len();
+                        b.push(0x10 + (i % 0xe0) as u8);
+                    }
+                }
+                b
+            };
+            let (vps, sps, pps) = (sized(frames::h265_vps(0), 0), sized(if *codec == VCodec::H264 { frames::h264_sps(0) } else { frames::h265_sps(0) }, 1), sized(if *codec == VCodec::H264 { frames::h264_pps(0) } else { frames::h265_pps(0) }, 2));
+            let r = guarded(|| {
+                let b = MuxerBuilder::new(Vec::<u8>::new());
+                let b = match codec {
+                    VCodec::H264 => b.video(VideoCodec::H264, 640, 480, 30.0).with_sps(sps.clone()).with_pps(pps.clone()),
+                    _ => b.video(VideoCodec::H265, 640, 480, 30.0).with_vps(vps.clone()).with_sps(sps.clone()).with_pps(pps.clone()),
+                };
+                b.new_with_fragment().map(|mut m| m.init_segment()).map_err(|e| format!("{e:?}"))
+            });
+            match r {
+                Err(p) => t.violation("C16/init/panic", order, || format!("{codec:?} set {which} of {len} bytes: {p}"), case),
+                Ok(Err(_)) => t.count("calls_rejected_at_a_boundary", 1),
+                Ok(Ok(init)) => {
+                    t.outcome(oracle::report::h64(&init));
+                    let m = parse_movie(&init, "init");
+                    let ok = match m.video().and_then(|t| t.entry.as_ref()).map(|e| &e.cfg) {
+                        Some(CodecCfg::Avc { sps: fs, pps: fp, .. }) => fs.first() == Some(&sps) && fp.first() == Some(&pps),
+                        Some(CodecCfg::Hevc { arrays, .. }) => [(32u8, &vps), (33, &sps), (34, &pps)].iter().all(|(ty, want)| arrays.iter().any(|a| a.0 == *ty && a.1.first() == Some(*want))),
+                        _ => false,
+                    };
+                    if !ok {
+                        t.violation("C16/init/builder/param-set-length-wrapped", order, || format!("{codec:?}: parameter set {which} (0 = VPS, 1 = SPS, 2 = PPS) of {len} bytes accepted but not recoverable from the record"), case);
+                    }
+                }
+            }
+        }
         Case::Init { cfg } => {
             let case = || json!({"engine": "E2-c16-init", "cfg": cfg});
             match guarded(|| frag::make(cfg).map(|mut m| m.init_segment())) {
@@ -492,7 +544,7 @@ pub fn check(ctx: &Ctx) -> i32 {
         &tally,
         Meta {
             level: "exploration",
-            rule: format!("{n} boundary cases: video decode-time gaps g1 (x optional g2) over {{3000, 2^31-1, 2^31, 2^31+1, 2^32-2, 2^32-1, 2^32, 2^32+1}} ticks x composition offset of the second frame (and, separately, of the first / only frame) over {{0, +-(2^31-1), +-2^31, +-(2^31+1)}} from start {{0, 2^33}} (cumulative durations crossing 2^32 included); two-frame recordings with every whole-millisecond total from 1000 to 1100 ms and a ladder up to 4e7 ms (header durations exact); the same gap product for AAC and Opus audio; parameter sets of 65534..65537 bytes (SPS) x {{4, 65535, 65536}} (PPS) x VPS, each alone and followed by a second small set of every type; dimensions {{65535, 65536, 65537, 131072, u32::MAX}} x {{480, 65535, 65536}} x 4 codecs with and without frames; audio rates {{65535, 65536, 88200, 96000, u32::MAX}} x channels {{1, 6, 255, 256, 65535}}; absolute timestamps near 2^40, 2^52, 2^53 ticks and 1e15/1e300/f64::MAX s; fragmented DTS gaps {{2^32-1, 2^32, 2^33}} x composition offsets around 2^31; init segments with dimensions and parameter sets around 2^16. Oracle: the crossing call returns Err, or every numeric field the reader decodes equals the exact integer recomputed from the submitted history (no 32-bit escape). Thorough tier only: 32 files whose media data reaches 2^32 bytes (14 of them with three trailing Opus packets of 100 or 10 bytes, whose chunk offsets are the ones that cross) (mdat box size 2^32 - e for e over {{-64, -1, 0, 1, 16, 64, 600, 1200, 5000}} x both layouts, the last sample 32 bytes so that its chunk offset crosses 2^32 while the box size still fits), each in a child process: refused, or exact under the reader (which understands largesize and co64). Distinct by (results, output bytes)."),
+            rule: format!("{n} boundary cases: video decode-time gaps g1 (x optional g2) over {{3000, 2^31-1, 2^31, 2^31+1, 2^32-2, 2^32-1, 2^32, 2^32+1}} ticks x composition offset of the second frame (and, separately, of the first / only frame) over {{0, +-(2^31-1), +-2^31, +-(2^31+1)}} from start {{0, 2^33}} (cumulative durations crossing 2^32 included); two-frame recordings with every whole-millisecond total from 1000 to 1100 ms and a ladder up to 4e7 ms (header durations exact); the same gap product for AAC and Opus audio; parameter sets of 65534..65537 bytes (SPS) x {{4, 65535, 65536}} (PPS) x VPS, each alone and followed by a second small set of every type; dimensions {{65535, 65536, 65537, 131072, u32::MAX}} x {{480, 65535, 65536}} x 4 codecs with and without frames; audio rates {{65535, 65536, 88200, 96000, u32::MAX}} x channels {{1, 6, 255, 256, 65535}}; absolute timestamps near 2^40, 2^52, 2^53 ticks and 1e15/1e300/f64::MAX s; fragmented DTS gaps {{2^32-1, 2^32, 2^33}} x composition offsets around 2^31; init segments with dimensions and parameter sets around 2^16 (all sets together, and each set alone through the builder). Oracle: the crossing call returns Err, or every numeric field the reader decodes equals the exact integer recomputed from the submitted history (no 32-bit escape). Thorough tier only: 32 files whose media data reaches 2^32 bytes (14 of them with three trailing Opus packets of 100 or 10 bytes, whose chunk offsets are the ones that cross) (mdat box size 2^32 - e for e over {{-64, -1, 0, 1, 16, 64, 600, 1200, 5000}} x both layouts, the last sample 32 bytes so that its chunk offset crosses 2^32 while the box size still fits), each in a child process: refused, or exact under the reader (which understands largesize and co64). Distinct by (results, output bytes)."),
             bound: "three inputs (below / at / above) per narrowing site, pairwise with neighbouring sites".into(),
             exhaustive: true,
             assumptions: vec!["descriptor lengths near 2^8 are unreachable from inputs of feasible size and are not claimed; box sizes and chunk offsets near 2^32 are exercised in the thorough tier only (10 GiB per case)".into(), "mvhd/tkhd durations may match any track and any rounding direction; only wrapped/clipped values are violations".into()],
@@ -723,6 +775,7 @@ pub fn replay(case: &Value) -> i32 {
         Some("E2-c16-paramsets") => Case::ParamSets { codec: serde_json::from_value(case["codec"].clone()).unwrap(), sps: case["sps"].as_u64().unwrap() as usize, pps: case["pps"].as_u64().unwrap() as usize, vps: case["vps"].as_u64().unwrap() as usize, dup: case["dup"].as_bool().unwrap_or(false) },
         Some("E2-c16-frag") => Case::Frag { name: case["name"].as_str().unwrap_or("?").into(), cfg: serde_json::from_value(case["cfg"].clone()).unwrap(), hist: serde_json::from_value(case["history"].clone()).unwrap() },
         Some("E2-c16-init") => Case::Init { cfg: serde_json::from_value(case["cfg"].clone()).unwrap() },
+        Some("E2-c16-init-one") => Case::InitOne { codec: serde_json::from_value(case["codec"].clone()).unwrap(), which: case["which"].as_u64().unwrap_or(0) as u8, len: case["len"].as_u64().unwrap_or(0) as usize },
         Some("E2-c16-huge") => {
             let rc = child_huge(case["e"].as_i64().unwrap_or(0), case["fast_start"].as_bool().unwrap_or(false), case["trailing_audio"].as_u64().unwrap_or(0) as u8);
             println!("{}", if rc == 0 { "replay: property C16 holds for this case" } else { "replay: VIOLATION (see the line above)" });
